@@ -30,6 +30,22 @@ def write_evidence(prop, tier, seed, level, coverage, assumptions, wall, violati
         # runs against a patched scratch copy (selftest / tools_mutant.sh) must never overwrite the evidence of /repo
         d = os.path.join(VERIF, '.gen', 'evidence-scratch')
     os.makedirs(d, exist_ok=True)
+    # keep a summary of the latest run of the *other* tier (the file itself always describes the run that wrote it)
+    try:
+        with open(os.path.join(d, prop + '.json')) as f:
+            prev = json.load(f)
+        if prev.get('tier') != tier:
+            pc = prev.get('coverage', {})
+            other = dict(tier=prev.get('tier'), wall_s=prev.get('wall_s'), violations=prev.get('violations'),
+                         obligations=pc.get('obligations'), discharged=pc.get('discharged'), evaluations=pc.get('evaluations'),
+                         harnesses=len(pc.get('harnesses', [])) if isinstance(pc.get('harnesses'), list) else pc.get('harnesses'),
+                         solver_seconds=pc.get('solver_seconds'), paths=pc.get('paths'))
+        else:
+            other = prev.get('coverage', {}).get('other_tier_run')
+        if other:
+            coverage = dict(coverage, other_tier_run=other)
+    except Exception:
+        pass
     ev = dict(property_id=prop, tier=tier, seed=seed, level=level, coverage=coverage,
               assumptions=assumptions, wall_s=round(wall, 2), violations=violations)
     tmp = os.path.join(d, prop + '.json.tmp')
